@@ -1,6 +1,7 @@
 package rules
 
 import (
+	"strings"
 	"fmt"
 
 	"golang.org/x/tools/go/ssa"
@@ -18,6 +19,55 @@ func runC14(c *Check, tier string) {
 	ruleR14c(c, "R14c")
 	ruleR14d(c, "R14d")
 	ruleWritePathErrors(c, "R14e")
+	ruleR14f(c, "R14f")
+}
+
+// R14f: a target that declares outputs is reported successful only after a call that looked at every
+// declared output (stored them or hashed them locally) returned nil.
+func ruleR14f(c *Check, rule string) {
+	c.Rule(rule, "in the completion function every `return nil` is preceded by an output-producing call on the registry (WriteOutputs / GetNoCacheOutputHash — the calls that fail when a declared output is missing), except on the branch where the target declares no outputs", 1)
+	ex := findExec(c, rule)
+	if ex == nil {
+		return
+	}
+	complete := ex.Complete
+	reg := c.P.Type("output", "Registry")
+	producers, _ := liftedSites(c, complete, func(s ssa.CallInstruction) bool {
+		sig := s.Common().Signature()
+		return sig.Results().Len() == 2 && engine.TypeKey(sig.Results().At(0).Type()) == "proto/gen.TargetResult" && engine.ErrResultIndex(sig) == 1 &&
+			sig.Recv() != nil && reg != nil && engine.TypeKey(sig.Recv().Type()) == "output.Registry"
+	}, 0)
+	key := "outputs-verified-before-success/" + c.P.FuncName(complete)
+	if len(producers) == 0 {
+		c.Unknown(rule, key, "no output-producing call found in the completion function", "-")
+		return
+	}
+	isProducer := func(in ssa.Instruction) bool {
+		for _, p := range producers {
+			if in == ssa.Instruction(p) {
+				return true
+			}
+		}
+		return false
+	}
+	noOutputs := engine.CutEdgesWhere(func(a engine.Atom) bool {
+		arg, ok := lenArg(a.V)
+		if !ok || !(a.Op == "eq" || a.Op == "le") {
+			return false
+		}
+		k, isK := a.Other.(*ssa.Const)
+		if !isK || k.Value == nil || k.Int64() != 0 {
+			return false
+		}
+		call, _ := engine.CallOf(arg)
+		return call != nil && strings.HasSuffix(engine.CalleeName(call), "model.Target).AllOutputs")
+	})
+	reach, at := nilReturnReachable(complete, engine.PathQuery{CutInstr: isProducer, CutEdge: noOutputs}, 0)
+	pos := c.P.Pos(complete.Pos())
+	if at != nil {
+		pos = c.P.InstrPos(at)
+	}
+	c.Require(!reach, rule, key, "success is reported only after WriteOutputs/GetNoCacheOutputHash (or for a target without outputs)", "the completion can report success for a target with declared outputs without any call that checks they exist: a command that exits 0 without creating a declared output would be reported (and, for dependants, treated) as successful", pos)
 }
 
 func ruleR14b(c *Check) {
